@@ -245,3 +245,18 @@ mod tests {
         assert_eq!(hash2, hash1);
     }
 }
+
+#[cfg(feature = "verif-hooks")]
+impl XxHash64 {
+    /// Verification hook: the hasher state with the buffer masked to its fill level.
+    pub fn verif_state(&self) -> (u64, [u64; 4], [u8; 32], usize) {
+        let mut buf = [0u8; 32];
+        buf[..self.buffer_len].copy_from_slice(&self.buffer[..self.buffer_len]);
+        (
+            self.total_len,
+            [self.v1, self.v2, self.v3, self.v4],
+            buf,
+            self.buffer_len,
+        )
+    }
+}
